@@ -136,6 +136,12 @@ def gen_plan(ch, prof):
                 top['reason'] = ch.choice('term.r', prof.get('term_reasons', (0, 0, 1, 3, 5)))
             _place(ch, 'term', top, prof)
             ops.append(top)
+        if ch.coin('late.send', 1, 3):
+            # a bundle queued just after a side entered the ending state
+            side = ch.choice('late.n', ('A', 'P'))
+            ops.append(dict(node=side, op='send', len=ch.choice('late.len', (1, 100, 5000)), tag=tag,
+                            after=['dbus-signal', side, 1, 'session_state_changed', 'ending'], delay=ch.choice('late.delay', (0, 0, 30, 300))))
+            tag += 1
     faults = []
     if prof.get('faults'):
         nflt = 1 + ch.weighted('nflt', (5, 2, 1))
@@ -362,14 +368,17 @@ class Harness:
         if 'after' in item:
             (kind, node, nth) = item['after'][:3]
             extra = item['after'][3] if len(item['after']) > 3 else None
+            arg = item['after'][4] if len(item['after']) > 4 else None
             state = {'n': 0}
 
-            def pred(evt, _kind=kind, _node=node, _nth=nth, _extra=extra):
+            def pred(evt, _kind=kind, _node=node, _nth=nth, _extra=extra, _arg=arg):
                 if evt[3] != _kind:
                     return False
                 if _node is not None and evt[2] != _node:
                     return False
                 if _extra is not None and _extra not in evt[4:]:
+                    return False
+                if _arg is not None and _arg not in evt[-1]:
                     return False
                 state['n'] += 1
                 return state['n'] == _nth
